@@ -111,6 +111,39 @@ func VerifFrontEnd(cfg *Config) *VerifResult {
 	return res
 }
 
+// VerifGenerateLexer runs ParseLox, PreParseGo, EmitBase and EmitLexer only
+// (base.gen.go and lexer.gen.go are written; the Go package is not analysed).
+func VerifGenerateLexer(cfg *Config) *VerifResult {
+	ctx := &context{
+		Fset:   cfg.Fset,
+		Errs:   cfg.Errs,
+		Dir:    cfg.Dir,
+		Report: cfg.Report,
+	}
+	res := &VerifResult{}
+	stages := []struct {
+		name string
+		f    func() bool
+	}{
+		{"ParseLox", ctx.ParseLox},
+		{"PreParseGo", ctx.PreParseGo},
+		{"EmitBase", ctx.EmitBase},
+		{"EmitLexer", ctx.EmitLexer},
+	}
+	res.OK = true
+	for _, st := range stages {
+		if !st.f() {
+			res.OK = false
+			res.Stage = st.name
+			break
+		}
+	}
+	res.Grammar = ctx.ParserGrammar
+	res.Table = ctx.ParserTable
+	res.Modes = ctx.LexerModes
+	return res
+}
+
 func (c *context) verifParseGo(pkgPath string, imp gotypes.Importer) bool {
 	placeholder := renderParserTemplate(&parserTemplateInputs{
 		Placeholder: true,
